@@ -88,7 +88,7 @@ def ml_case(draw):
     for o in ops[:2]:
         if draw(st.booleans()):
             o["style"] = draw(st.sampled_from(TRAIL_STYLES))  # trailing comments are the point here
-            o["text"] = o["text"][:1]
+            o["text"] = [draw(comment_text(ops.index(o), 0, o["style"]))]  # text drawn for the final style (nested markers depend on it)
     return {"src": "ml", "cols": cols, "tcomment": tcomment, "ops": ops, "second": draw(st.booleans())}
 
 
